@@ -363,6 +363,11 @@ def lcd_list(ctx, rule="R1"):
             e = e.func.value
         if isinstance(e, ast.Name) and e.id == dep:
             return True
+        if isinstance(e, (ast.DictComp, ast.SetComp)) and len(e.generators) == 1 and domain(e.generators[0].iter, depth + 1):
+            # a table / set built from the entries, used in place: keyed by something else, entries with the same key collapse
+            key_ = e.key if isinstance(e, ast.DictComp) else e.elt
+            tgt_ = e.generators[0].target
+            return U(key_) == U(tgt_) or (isinstance(tgt_, ast.Tuple) and U(key_) == U(tgt_.elts[0]))
         if isinstance(e, ast.Subscript):
             return False if U(e.value).startswith(("sorted(", dep)) or domain(e.value, depth + 1) else None
         if isinstance(e, ast.Name) and depth < 2:
